@@ -29,15 +29,23 @@ structure HList where
   count : Int := 0
 deriving Inhabited
 
+/-- the heap of entries: index = entry id (an array rather than a function: a function-typed
+    intermediate value is compiled eta-expanded and redoes its updates on every lookup) -/
+abbrev Heap := Array Entry
+
+def Heap.get (h : Heap) (i : Nat) : Entry := h.getD i default
+def Heap.set (h : Heap) (i : Nat) (e : Entry) : Heap :=
+  if i < h.size then h.setIfInBounds i e else (h ++ Array.replicate (i - h.size) (default : Entry)).push e
+
 structure State where
-  ents : Nat → Entry
+  ents : Heap
   next : Nat
   order : HList
   locals : Nat → Option HList
   conns : Nat → Conn
 
 def init : State :=
-  { ents := fun _ => {}, next := 0, order := {}, locals := fun _ => none, conns := fun _ => {} }
+  { ents := #[], next := 0, order := {}, locals := fun _ => none, conns := fun _ => {} }
 
 /-- which of the two nodes of an entry a list operation works on -/
 inductive Which where | g | l
@@ -46,34 +54,34 @@ def getNode (w : Which) (e : Entry) : Node := match w with | .g => e.global | .l
 def setNode (w : Which) (e : Entry) (n : Node) : Entry :=
   match w with | .g => { e with global := n } | .l => { e with local_ := n }
 
-/-- apply `f` to the chosen node of an entry.  (Used as `upd ents i (modEntry w (ents i) f)`: a
+/-- apply `f` to the chosen node of an entry.  (Used as `ents.set i (modEntry w (ents.get i) f)`: a
     definition that *returns* a function is compiled eta-expanded and would redo its body on every
     lookup, which makes chains of updates exponentially slow.) -/
 def modEntry (w : Which) (e : Entry) (f : Node → Node) : Entry := setNode w e (f (getNode w e))
 
 /-- `appendEntry` -/
-def appendEntry (ents : Nat → Entry) (l : HList) (w : Which) (e : Nat) : (Nat → Entry) × HList :=
+def appendEntry (ents : Heap) (l : HList) (w : Which) (e : Nat) : Heap × HList :=
   let l1 := if l.head.isNone then { l with head := some e } else l
   let ents1 := match l1.tail with
     | some t =>
-      let en := upd ents t (modEntry w (ents t) (fun n => { n with next := some e }))
-      upd en e (modEntry w (en e) (fun n => { n with prev := some t }))
+      let en := ents.set t (modEntry w (ents.get t) (fun n => { n with next := some e }))
+      en.set e (modEntry w (en.get e) (fun n => { n with prev := some t }))
     | none => ents
   (ents1, { l1 with tail := some e, count := l1.count + 1 })
 
 /-- `removeEntry` -/
-def removeEntry (ents : Nat → Entry) (l : HList) (w : Which) (e : Nat) : (Nat → Entry) × HList :=
-  let n := getNode w (ents e)
+def removeEntry (ents : Heap) (l : HList) (w : Which) (e : Nat) : Heap × HList :=
+  let n := getNode w (ents.get e)
   if n.removed then (ents, l)
   else
-    let ents := upd ents e (modEntry w (ents e) (fun n => { n with removed := true }))
+    let ents := ents.set e (modEntry w (ents.get e) (fun n => { n with removed := true }))
     let l := if l.head = some e then { l with head := n.next } else l
     let ents := match n.next with
-      | some x => upd ents x (modEntry w (ents x) (fun m => { m with prev := n.prev }))
+      | some x => ents.set x (modEntry w (ents.get x) (fun m => { m with prev := n.prev }))
       | none => ents
     let l := if l.tail = some e then { l with tail := n.prev } else l
     let ents := match n.prev with
-      | some x => upd ents x (modEntry w (ents x) (fun m => { m with next := n.next }))
+      | some x => ents.set x (modEntry w (ents.get x) (fun m => { m with next := n.next }))
       | none => ents
     (ents, { l with count := l.count - 1 })
 
@@ -94,9 +102,9 @@ def poolCloseConn (s : State) (v : Nat) : State :=
   { s with conns := upd s.conns v { s.conns v with closed := true, poolCloses := (s.conns v).poolCloses + 1 } }
 
 def closeEntry (s : State) (e : Nat) : State :=
-  match (s.ents e).exp with
-  | .none => poolCloseConn s (s.ents e).val
-  | .armed => poolCloseConn { s with ents := upd s.ents e { s.ents e with exp := .stopped } } (s.ents e).val
+  match (s.ents.get e).exp with
+  | .none => poolCloseConn s (s.ents.get e).val
+  | .armed => poolCloseConn { s with ents := s.ents.set e { s.ents.get e with exp := .stopped } } (s.ents.get e).val
   | _ => s
 
 def keyLoop (cfg : Cfg) (k : Nat) : Nat → State → State × Status
@@ -118,7 +126,7 @@ def capLoop (cfg : Cfg) (k : Nat) : Nat → State → State × Status
       match s.order.head with
       | none => (s, .panic)
       | some e =>
-        let ke := (s.ents e).key
+        let ke := (s.ents.get e).key
         let s1 := closeEntry s e
         match s1.locals ke with
         | none => (s1, .panic)
@@ -135,7 +143,7 @@ def insert (cfg : Cfg) (s : State) (k v : Nat) : State × Status :=
   | none => (s, .stuck)
   | some l =>
     let e := s.next
-    let ents0 := upd s.ents e { key := k, val := v, exp := if cfg.expiration then .armed else .none }
+    let ents0 := s.ents.set e { key := k, val := v, exp := if cfg.expiration then .armed else .none }
     let (ents1, l') := appendEntry ents0 l .l e
     let (ents2, o') := appendEntry ents1 s.order .g e
     ({ s with ents := ents2, next := e + 1, locals := upd s.locals k (some l'), order := o' }, .ok)
@@ -159,18 +167,18 @@ def takeLoop (k : Nat) : Nat → Option Nat → State → State × Out
   | 0, _, s => (s, .stuck)
   | _ + 1, none, s => (s, .miss)
   | n + 1, some e, s =>
-    let nxt := fun (t : State) => (t.ents e).local_.next
-    if (s.conns (s.ents e).val).blocked then takeLoop k n (nxt s) s
+    let nxt := fun (t : State) => (t.ents.get e).local_.next
+    if (s.conns (s.ents.get e).val).blocked then takeLoop k n (nxt s) s
     else
       let s1 := unlink s k e
-      match (s1.ents e).exp with
+      match (s1.ents.get e).exp with
       | .none =>
-        if (s1.conns (s1.ents e).val).closed then takeLoop k n (nxt s1) s1
-        else (s1, .taken e (s1.ents e).val)
+        if (s1.conns (s1.ents.get e).val).closed then takeLoop k n (nxt s1) s1
+        else (s1, .taken e (s1.ents.get e).val)
       | .armed =>
-        let s2 := { s1 with ents := upd s1.ents e { s1.ents e with exp := .stopped } }
-        if (s1.conns (s1.ents e).val).closed then takeLoop k n (nxt s2) s2
-        else (s2, .taken e (s1.ents e).val)
+        let s2 := { s1 with ents := s1.ents.set e { s1.ents.get e with exp := .stopped } }
+        if (s1.conns (s1.ents.get e).val).closed then takeLoop k n (nxt s2) s2
+        else (s2, .taken e (s1.ents.get e).val)
       | _ => takeLoop k n (nxt s1) s1
 
 def take (s : State) (k : Nat) : State × Out :=
@@ -184,16 +192,16 @@ def closeAll : Nat → Option Nat → State → State
   | _ + 1, none, s => s
   | n + 1, some e, s =>
     let s1 := closeEntry s e
-    let en := s1.ents e
+    let en := s1.ents.get e
     let en := { en with global := { en.global with removed := true }, local_ := { en.local_ with removed := true } }
-    closeAll n (s1.ents e).global.next { s1 with ents := upd s1.ents e en }
+    closeAll n (s1.ents.get e).global.next { s1 with ents := s1.ents.set e en }
 
 def close (s : State) : State :=
   let s1 := closeAll (s.next + 1) s.order.head s
   { s1 with locals := fun _ => none, order := {} }
 
 def poolRemove (s : State) (e : Nat) : State :=
-  let k := (s.ents e).key
+  let k := (s.ents.get e).key
   match s.locals k with
   | none => s
   | some _ =>
@@ -211,29 +219,29 @@ def step (cfg : Cfg) (s : State) : Op → State × Out
   | .take k => take s k
   | .close => (close s, .done)
   | .fire e =>
-    if e < s.next ∧ (s.ents e).exp = .armed then
-      ({ s with ents := upd s.ents e { s.ents e with exp := .fired } }, .done)
+    if e < s.next ∧ (s.ents.get e).exp = .armed then
+      ({ s with ents := s.ents.set e { s.ents.get e with exp := .fired } }, .done)
     else (s, .done)
   | .cbClose e =>
-    if e < s.next ∧ (s.ents e).exp = .fired then
-      let v := (s.ents e).val
-      ({ s with ents := upd s.ents e { s.ents e with exp := .cbClosed },
+    if e < s.next ∧ (s.ents.get e).exp = .fired then
+      let v := (s.ents.get e).val
+      ({ s with ents := s.ents.set e { s.ents.get e with exp := .cbClosed },
                 conns := upd s.conns v { s.conns v with closed := true, cbCloses := (s.conns v).cbCloses + 1 } },
        .done)
     else (s, .done)
   | .cbRemove e =>
-    if e < s.next ∧ (s.ents e).exp = .cbClosed then
+    if e < s.next ∧ (s.ents.get e).exp = .cbClosed then
       let s1 := poolRemove s e
-      ({ s1 with ents := upd s1.ents e { s1.ents e with exp := .cbDone } }, .done)
+      ({ s1 with ents := s1.ents.set e { s1.ents.get e with exp := .cbDone } }, .done)
     else (s, .done)
   | .envClose v => ({ s with conns := upd s.conns v { s.conns v with closed := true } }, .done)
   | .block v => ({ s with conns := upd s.conns v { s.conns v with blocked := true } }, .done)
   | .unblock v => ({ s with conns := upd s.conns v { s.conns v with blocked := false } }, .done)
 
 /-- head→tail walk of a list through the `next` pointers of the chosen node -/
-def walk (ents : Nat → Entry) (w : Which) : Nat → Option Nat → List Nat
+def walk (ents : Heap) (w : Which) : Nat → Option Nat → List Nat
   | 0, _ => []
   | _ + 1, none => []
-  | n + 1, some e => e :: walk ents w n (getNode w (ents e)).next
+  | n + 1, some e => e :: walk ents w n (getNode w (ents.get e)).next
 
 end Drpc.PoolHeap
